@@ -78,13 +78,23 @@ class ScopeContext:
     async def __aenter__(self) -> None:
         await self._task_group_context.__aenter__()
 
-        if self._disposables is not None:
-            self._state_context = StateContext.updated(
-                (*self._state, *await self._disposables.__aenter__())
-            )
+        try:
+            if self._disposables is not None:
+                self._state_context = StateContext.updated(
+                    (*self._state, *await self._disposables.__aenter__())
+                )
 
-        else:
-            self._state_context = StateContext.updated(self._state)
+            else:
+                self._state_context = StateContext.updated(self._state)
+
+        except BaseException as exc:
+            # scope won't be entered - leave the task group which was already entered
+            await self._task_group_context.__aexit__(
+                exc_type=type(exc),
+                exc_val=exc,
+                exc_tb=exc.__traceback__,
+            )
+            raise
 
         self._state_context.__enter__()
         self._metrics_context.__enter__()
